@@ -561,3 +561,24 @@ package keeper
 //@ ensures err == nil ==> old(has(Store_tss, types.MemberStoreKey(req.GroupID, req.Complaints[0].Complainant))) && old(memberAt(Store_tss, req.GroupID, req.Complaints[0].Complainant)).Address == req.Sender
 //@ ensures err == nil ==> !old(has(Store_tss, types.ConfirmStoreKey(req.GroupID, req.Complaints[0].Complainant))) && !old(has(Store_tss, types.ComplainsWithStatusStoreKey(req.GroupID, req.Complaints[0].Complainant)))
 //@ ensures err == nil ==> has(Store_tss, types.ComplainsWithStatusStoreKey(req.GroupID, req.Complaints[0].Complainant))
+
+// ---- frame of the store invariants: each record family is written only through these functions ------------------------
+// (the invariants above are proved writer by writer - "a lock has its index entry", "a record is filed under its own id";
+// a new function that Sets or Deletes such keys directly is outside that argument: ground obligation `writers/...`)
+//@ writers AccumulatedCommitStoreKey: Keeper.DeleteAccumulatedCommit, Keeper.SetAccumulatedCommit
+//@ writers ComplainsWithStatusStoreKey: Keeper.SetComplaintsWithStatus
+//@ writers ConfirmComplainCountStoreKey: Keeper.DeleteConfirmComplainCount, Keeper.SetConfirmComplainCount
+//@ writers ConfirmStoreKey: Keeper.SetConfirm
+//@ writers DEQueueStoreKey: Keeper.SetDEQueue
+//@ writers DEStoreKey: Keeper.DeleteDE, Keeper.SetDE
+//@ writers DKGContextStoreKey: Keeper.DeleteDKGContext, Keeper.SetDKGContext
+//@ writers GroupStoreKey: Keeper.SetGroup
+//@ writers MemberStoreKey: Keeper.SetMember
+//@ writers PartialSignatureCountStoreKey: Keeper.DeletePartialSignatureCount, Keeper.SetPartialSignatureCount
+//@ writers PartialSignatureStoreKey: Keeper.SetPartialSignature
+//@ writers Round1InfoCountStoreKey: Keeper.DeleteRound1InfoCount, Keeper.SetRound1InfoCount
+//@ writers Round1InfoStoreKey: Keeper.SetRound1Info
+//@ writers Round2InfoCountStoreKey: Keeper.DeleteRound2InfoCount, Keeper.SetRound2InfoCount
+//@ writers Round2InfoStoreKey: Keeper.SetRound2Info
+//@ writers SigningAttemptStoreKey: Keeper.DeleteSigningAttempt, Keeper.SetSigningAttempt
+//@ writers SigningStoreKey: Keeper.SetSigning
